@@ -298,7 +298,7 @@ def lipschitz_facts(kind, seed, tid0, nrep):
         n, p = int(rng.integers(4, 10)), int(rng.integers(2, 9))
         X = np.asfortranarray(np.round(rng.standard_normal((n, p)) * 2) / 2 * (rng.random((n, p)) < 0.8))
         if rep % 5 == 0:
-            X[:, -1] = 0.0
+            X[:, int(rng.integers(p))] = 0.0        # an all-zero column anywhere (inside a group, between others)
         if rep % 5 == 1 and p > 1:
             X[:, 1] = X[:, 0]                   # rank deficient
         if rep % 5 == 2:
